@@ -21,12 +21,17 @@ TARGET = os.path.join(VERIF, "target")
 TRIPLE = "x86_64-unknown-linux-gnu"
 
 # property -> list of (flavour, argument)
-#   miri: list of case numbers run with `--tier tiny --case N`
+#   miri: list of case numbers run with `--tier tiny --case N` (8 virtual CPUs, so that the parallel operators really overlap)
+#   miri1: the same with ONE virtual CPU — what `num_cpus` reports in a single-core container; Miri reports a stream
+#          that can never make progress as a deadlock
 #   tsan / asan / rel: tier name for a complete monitor run
+#   memcheck: case numbers (quick tier) run in-process under valgrind memcheck on the release harness — the cases
+#           that reach the bundled SQLite C code (MBTiles), which the Rust-only ASan instrumentation does not see
+#   fuzz: seconds per libFuzzer target (coverage-guided flavour of C19, see fuzz_c19.py)
 #   relbin: the dev harness drives the optimised (release) `versatiles` binary — wrapping instead of
 #           trapping arithmetic, no debug assertions: what users actually run
 FLAVOURS = {
-    "C01": [("asan", "quick")],
+    "C01": [("asan", "quick"), ("memcheck", [22, 27, 32, 16])],
     "C02": [("tsan", "quick")],
     "C04": [("rel", "quick")],
     "C05": [("relbin", "quick")],
@@ -35,12 +40,12 @@ FLAVOURS = {
     "C10": [("miri", [0, 1])],
     "C11": [("miri", [0, 2])],
     "C13": [("tsan", "quick")],
-    "C14": [("miri", [1, 2, 3, 7, 8, 13, 14, 20, 21]), ("tsan", "quick")],
+    "C14": [("miri", [1, 2, 3, 7, 8, 13, 14, 20, 21]), ("miri1", [20, 29, 38]), ("tsan", "quick")],
     "C15": [("miri", [0])],
-    "C16": [("asan", "quick")],
+    "C16": [("asan", "quick"), ("memcheck", [2, 7, 12, 17, 22, 27])],
     "C17": [("miri", [0])],
     "C18": [("miri", [0])],
-    "C19": [("asan", "quick"), ("rel", "quick")],
+    "C19": [("asan", "quick"), ("rel", "quick"), ("fuzz", 150), ("memcheck", [9, 21, 33, 45])],
     "C20": [("miri", [0, 1, 2, 7, 33, 63])],
 }
 
@@ -124,11 +129,71 @@ def run_monitor_flavour(prop, flavour, tier, seed, logdir):
     return res
 
 
-def run_miri(prop, cases, seed, logdir):
+def run_memcheck(prop, cases, seed, logdir):
     t0 = time.time()
+    rc, out, exe = build("rel")
+    if rc != 0:
+        return {"flavour": "memcheck", "status": "inconclusive", "why": "build failed", "log": out[-2000:]}
+    env = dict(BASE_ENV)
+
+    def one(case):
+        e = dict(env)
+        e["VTV_EVIDENCE_PATH"] = os.path.join(logdir, f"evidence_memcheck_{case}.json")
+        cmd = ["valgrind", "--error-exitcode=99", "--leak-check=no", "-q", exe, prop, "--tier", "quick", "--seed", str(seed), "--case", str(case)]
+        try:
+            p = subprocess.run(cmd, env=e, cwd=VERIF, stdout=subprocess.PIPE, stderr=subprocess.STDOUT, text=True, errors="replace", timeout=3600)
+            return case, p.returncode, p.stdout
+        except subprocess.TimeoutExpired:
+            return case, 124, "timeout"
+
+    with ThreadPoolExecutor(max_workers=8) as ex:
+        results = list(ex.map(one, cases))
+    res = {"flavour": "memcheck", "cases": cases, "evaluations": 0, "sanitizer_reports": 0, "violations": 0}
+    status = "held"
+    for case, rc, out in results:
+        log = os.path.join(logdir, f"memcheck_case{case}.log")
+        with open(log, "w") as f:
+            f.write(out)
+        errs = len(re.findall(r"^==\d+== (Invalid (read|write|free)|Conditional jump or move depends on uninitialised|Use of uninitialised|Mismatched free|Syscall param .* uninitialised|Source and destination overlap|Process terminating)", out, re.M))
+        res["sanitizer_reports"] += errs
+        m = re.search(r'"evaluations":\s*(\d+)', out)
+        if m:
+            res["evaluations"] += int(m.group(1))
+        if errs or rc == 99 or "VIOLATION property=" in out:
+            status = "violated"
+            res["violations"] += 1 if "VIOLATION property=" in out else 0
+            res.setdefault("logs", []).append(log)
+        elif rc != 0 and status != "violated":
+            status = "inconclusive"
+            res.setdefault("logs", []).append(log)
+    res["status"] = status
+    res["wall_s"] = round(time.time() - t0, 1)
+    return res
+
+
+def run_fuzz(prop, seconds, seed, logdir):
+    p = subprocess.run([sys.executable, os.path.join(VERIF, "fuzz_c19.py"), str(seed), str(seconds)], env=BASE_ENV, cwd=VERIF, stdout=subprocess.PIPE, stderr=subprocess.STDOUT, text=True)
+    log = os.path.join(logdir, "fuzz.log")
+    with open(log, "w") as f:
+        f.write(p.stdout)
+    try:
+        rec = json.loads(p.stdout.strip().splitlines()[-1])
+    except Exception:
+        return {"flavour": "libfuzzer", "status": "inconclusive", "why": "no result record", "log": log}
+    rec["log"] = log
+    viol = [v for t in rec.get("targets", []) for v in t.get("violations", [])]
+    if viol:
+        rec["logs"] = [viol[0]["artifact"]]
+    rec["violations"] = len(viol)
+    return rec
+
+
+def run_miri(prop, cases, seed, logdir, cpus=8):
+    t0 = time.time()
+    name = "miri" if cpus == 8 else f"miri-{cpus}cpu"
     env = dict(BASE_ENV)
     env["CARGO_TARGET_DIR"] = os.path.join(TARGET, "miri")
-    env["MIRIFLAGS"] = "-Zmiri-disable-isolation -Zmiri-num-cpus=8 -Zmiri-deterministic-floats"
+    env["MIRIFLAGS"] = f"-Zmiri-disable-isolation -Zmiri-num-cpus={cpus} -Zmiri-deterministic-floats"
     # build once (first case), then the rest in parallel
     def one(case):
         cmd = ["cargo", "+nightly", "miri", "run", "--offline", "--bin", "vtv", "--", prop, "--tier", "tiny", "--seed", str(seed), "--case", str(case)]
@@ -140,10 +205,10 @@ def run_miri(prop, cases, seed, logdir):
     results = [one(cases[0])]
     with ThreadPoolExecutor(max_workers=12) as ex:
         results += list(ex.map(one, cases[1:]))
-    res = {"flavour": "miri", "cases": cases, "evaluations": 0, "ub_reports": 0, "violations": 0, "wall_s": 0}
+    res = {"flavour": name, "cases": cases, "evaluations": 0, "ub_reports": 0, "violations": 0, "wall_s": 0}
     status = "held"
     for case, rc, out in results:
-        log = os.path.join(logdir, f"miri_case{case}.log")
+        log = os.path.join(logdir, f"{name}_case{case}.log")
         with open(log, "w") as f:
             f.write(out)
         ub = len(re.findall(r"error: Undefined Behavior|error: unsupported operation|Data race detected|error: the evaluated program (leaked|deadlocked|aborted)", out))
@@ -174,6 +239,12 @@ def main():
     for flavour, arg in todo:
         if flavour == "miri":
             results.append(run_miri(prop, arg, seed, logdir))
+        elif flavour == "miri1":
+            results.append(run_miri(prop, arg, seed, logdir, cpus=1))
+        elif flavour == "fuzz":
+            results.append(run_fuzz(prop, arg, seed, logdir))
+        elif flavour == "memcheck":
+            results.append(run_memcheck(prop, arg, seed, logdir))
         else:
             results.append(run_monitor_flavour(prop, flavour, arg, seed, logdir))
     # merge into the evidence file written by the main (dev) run
@@ -189,7 +260,7 @@ def main():
     for r in results:
         print(f"flavour {r['flavour']}: {r['status']} " + json.dumps({k: v for k, v in r.items() if k in ('evaluations', 'sanitizer_reports', 'ub_reports', 'violations', 'wall_s', 'exit')}))
         if r["status"] == "violated":
-            rp = r.get("log") or (r.get("logs") or ["?"])[0]
+            rp = (r.get("logs") or [r.get("log") or "?"])[0]
             print(f"VIOLATION property={prop} replay={rp}")
             code = 1
         elif r["status"] == "inconclusive" and code == 0:
